@@ -10,7 +10,7 @@ out = f"/tmp/out{sfx}_{pid}"
 wt = f"/tmp/wt{sfx}_{pid}"
 env = dict(os.environ, GOFLAGS="-mod=mod", GOPROXY="off", GOSUMDB="off", GOTOOLCHAIN="local")
 def sh(cmd, cwd=None, timeout=1800):
-    p = subprocess.run(cmd, shell=True, cwd=cwd, env=env, capture_output=True, text=True, timeout=timeout)
+    p = subprocess.run(cmd, shell=True, cwd=cwd, env=env, capture_output=True, text=True, errors='replace', timeout=timeout)
     return p.returncode, (p.stdout + p.stderr)
 def reset():
     sh("git checkout -- . && git clean -fdq", wt)
